@@ -231,6 +231,21 @@ pub fn adf_query(id: &str, qid: &str, q: &[String], adf: &mut Adf, _parser: &Adf
         "acs" => {
             writeln!(out, "{} {} acs {}", id, qid, handles_string(&adf.ac)).unwrap();
         }
+        "rebuild" => {
+            // the same parser object is sorted (again) and a new ADF is instantiated from it (native back-end)
+            match q[1].as_str() {
+                "lexi" => {
+                    _parser.varsort_lexi();
+                }
+                "alnum" => {
+                    _parser.varsort_alphanum();
+                }
+                _ => {}
+            }
+            *adf = Adf::from_parser(_parser);
+            let names: Vec<String> = _parser.var_container().names().read().unwrap().clone();
+            writeln!(out, "{} {} rebuild {} names={}", id, qid, q[1], names.iter().map(|s| crate::hex(s)).collect::<Vec<_>>().join(",")).unwrap();
+        }
         "paths" => {
             // path counts of the two terminals and of every acceptance condition, through the count cache /
             // memoisation and by plain recursion
